@@ -1,6 +1,7 @@
 pub mod calendar;
 pub mod common;
 pub mod engine;
+pub mod fuzzdec;
 pub mod vocab;
 pub mod c01;
 pub mod c02;
@@ -55,6 +56,9 @@ pub fn run_property(id: &str, ctx: &Ctx) -> bool {
 }
 
 pub fn replay_property(id: &str, w: &mut Worker, sub: &str, case: &serde_json::Value) -> Option<Verdict> {
+    if sub == "fuzz" {
+        return fuzzdec::replay(w, case);
+    }
     match id {
         "C01" => c01::replay(w, sub, case),
         "C02" => c02::replay(w, sub, case),
